@@ -209,11 +209,25 @@ package tlog
 //@   pure
 //@   trusted "verified separately under C09 where claimed; here an uninterpreted pure function"
 //@   props C10
+//@ # NT(lo, hi): number of complete subtrees into which [lo, hi) is decomposed (uninterpreted; only its use
+//@ # by subTreeIndex and subTreeHash in lockstep matters here)
+//@ spec func NT(lo int, hi int) int
+//@ axiom NT_nonneg(lo int, hi int)
+//@   ensures NT(lo, hi) >= 0 && (lo < hi ==> NT(lo, hi) >= 1)
+//@   trigger NT(lo, hi)
+//@   reason "definition: NT is a count (abstraction of the subtree decomposition used by subTreeIndex/subTreeHash)"
 //@ func subTreeIndex
 //@   allocates
-//@   trusted "index arithmetic; only the shape of the result is used"
-//@   ensures lo < hi && len(need) == 0 ==> len(result) >= 1
-//@   props C10
+//@   trusted "alignment arithmetic (lo&(k-1), shifts) not verified; summary: appends NT(lo,hi) indexes"
+//@   ensures len(result) == len(need) + NT(lo, hi) && NT(lo, hi) >= 0
+//@   ensures lo < hi ==> NT(lo, hi) >= 1
+//@   ensures lo >= hi ==> NT(lo, hi) == 0
+//@   props C10 C03
+//@ func subTreeHash
+//@   trusted "alignment arithmetic not verified; summary: consumes NT(lo,hi) hashes"
+//@   requires lo < hi && len(hashes) >= NT(lo, hi)
+//@   ensures len(result1) == len(hashes) - NT(lo, hi) && NT(lo, hi) >= 1
+//@   props C03
 //@ # the hash a tile's data yields for a storage index, and whether the tile covers that index
 //@ spec func HFT(t Tile, d []byte, idx int) Hash
 //@ spec func HFTOK(t Tile, d []byte, idx int) bool
@@ -291,3 +305,86 @@ package tlog
 //@     invariant 0 - 1 <= @idx && @idx < len(indexes) && len(hashes) == len(indexes)
 //@     decreases len(indexes) - @idx
 //@   props C10
+
+//@ # ---------- proof producers: no crash, and the proof has the RFC length (content: not decided) ----------
+//@ iface HashReader.ReadHashes(r HashReader, indexes []int64) (hashes []Hash, err error)
+//@   allocates
+
+//@ # number of stored hashes needed for the audit path / consistency proof
+//@ spec func LPI(lo int, hi int, n int) int decreases hi - lo uses K_bounds =
+//@     if hi <= lo + 1 then 0 else if n < lo + K(hi - lo) then LPI(lo, lo + K(hi - lo), n) + NT(lo + K(hi - lo), hi) else NT(lo, lo + K(hi - lo)) + LPI(lo + K(hi - lo), hi, n)
+//@ spec func TPI(lo int, hi int, n int) int decreases hi - lo uses K_bounds =
+//@     if n >= hi || hi <= lo + 1 then (if lo == 0 then 0 else NT(lo, hi))
+//@     else if n <= lo + K(hi - lo) then TPI(lo, lo + K(hi - lo), n) + NT(lo + K(hi - lo), hi) else NT(lo, lo + K(hi - lo)) + TPI(lo + K(hi - lo), hi, n)
+
+//@ lemma LPI_nonneg(lo int, hi int, n int)
+//@   ensures LPI(lo, hi, n) >= 0
+//@   induction hi - lo
+//@   uses K_bounds NT_nonneg
+//@   trigger LPI(lo, hi, n)
+//@   props C03
+//@ lemma TPI_nonneg(lo int, hi int, n int)
+//@   ensures TPI(lo, hi, n) >= 0
+//@   induction hi - lo
+//@   uses K_bounds NT_nonneg
+//@   trigger TPI(lo, hi, n)
+//@   props C03
+
+//@ lemma LPI_zero(lo int, hi int, n int)
+//@   requires lo <= n && n < hi && LPI(lo, hi, n) == 0
+//@   ensures PL(lo, hi, n) == 0
+//@   uses K_bounds NT_nonneg LPI_nonneg
+//@   props C03
+//@ lemma TPI_zero(lo int, hi int, n int)
+//@   requires lo < n && n <= hi && TPI(lo, hi, n) == 0
+//@   ensures TL(lo, hi, n) == 0
+//@   uses K_bounds NT_nonneg TPI_nonneg
+//@   props C03
+
+//@ func leafProofIndex
+//@   requires lo <= n && n < hi && 0 <= lo
+//@   decreases hi - lo
+//@   allocates
+//@   ensures len(result) == len(need) + LPI(lo, hi, n)
+//@   uses K_bounds
+//@   props C03
+
+//@ func leafProof
+//@   requires lo <= n && n < hi && 0 <= lo && len(hashes) >= LPI(lo, hi, n)
+//@   decreases hi - lo
+//@   allocates
+//@   modifies []Hash
+//@   ensures len(result1) == len(hashes) - LPI(lo, hi, n) && len(result0) == PL(lo, hi, n)
+//@   uses K_bounds PL_nonneg LPI_nonneg NT_nonneg
+//@   props C03
+
+//@ func ProveRecord
+//@   modifies []Hash
+//@   uses LPI_nonneg LPI_zero
+//@   ensures result1 == nil ==> 0 <= n && n < t && len(result0) == PL(0, t, n)
+//@   ensures !(0 <= n && n < t) ==> result1 != nil
+//@   props C03
+
+//@ func treeProofIndex
+//@   requires 0 <= lo && lo < n && n <= hi
+//@   decreases hi - lo
+//@   allocates
+//@   ensures len(result) == len(need) + TPI(lo, hi, n)
+//@   uses K_bounds
+//@   props C03
+
+//@ func treeProof
+//@   requires 0 <= lo && lo < n && n <= hi && len(hashes) >= TPI(lo, hi, n)
+//@   decreases hi - lo
+//@   allocates
+//@   modifies []Hash
+//@   ensures len(result1) == len(hashes) - TPI(lo, hi, n) && len(result0) == TL(lo, hi, n)
+//@   uses K_bounds TL_nonneg TPI_nonneg NT_nonneg
+//@   props C03
+
+//@ func ProveTree
+//@   modifies []Hash
+//@   uses TPI_nonneg TPI_zero
+//@   ensures result1 == nil ==> 1 <= n && n <= t && len(result0) == TL(0, t, n)
+//@   ensures !(1 <= n && n <= t) ==> result1 != nil
+//@   props C03
